@@ -70,8 +70,22 @@ def distSq (p a b : P) : Rat :=
       let t := c1 / c2
       normSq (sub p ⟨a.x + t * v.x, a.y + t * v.y⟩)
 
-/-- `distPointToSegment(p, a, b) > tol` -/
-def far (tol : Rat) (p a b : P) : Bool := decide (tol < 0) || decide (distSq p a b > tol * tol)
+/-- `distSq p a b > t2`, evaluated without the division: in the projection branch
+`distSq = |w|² − c1²/c2` with `c2 > 0`, so the test is `|w|²·c2 − c1² > t2·c2`.  Same branches as
+`distSq`; equality with `decide (distSq p a b > t2)` is `Arith.farSq_eq`.  (On integer grids all
+numbers stay integers, which keeps the driver fast on runs of hundreds of vertices.) -/
+def farSq (t2 : Rat) (p a b : P) : Bool :=
+  let v := sub b a
+  let w := sub p a
+  let c1 := dot w v
+  if c1 ≤ 0 then decide (normSq w > t2)
+  else
+    let c2 := dot v v
+    if c2 ≤ c1 then decide (normSq (sub p b) > t2)
+    else decide (normSq w * c2 - c1 * c1 > t2 * c2)
+
+/-- `distPointToSegment(p, a, b) > tol`, i.e. `tol < 0 ∨ distSq p a b > tol²` (`Arith.far_spec`) -/
+def far (tol : Rat) (p a b : P) : Bool := decide (tol < 0) || farSq (tol * tol) p a b
 
 /-! ### intersection.go -/
 
